@@ -575,6 +575,7 @@ fn run(ctx: &mut Ctx) {
     derived(ctx, &arena);
     let huge_pal = Arena::new(20);
     // equality of two typed views: decided by the declared bytes only, never by the alignment padding
+    ctx.bound("ordering_and_hash", "the DST kinds that implement Ord and Hash (command line, loader name, module, SMBIOS, EFI map; the header crate's information request): on the same pairs of images as the equality part, ==, cmp (both directions), partial_cmp and hash must agree with one another and with the declared bytes");
     ctx.bound("equality", "the DST kinds that implement PartialEq (command line, loader name, module, memory map, SMBIOS, ELF sections, EFI map, framebuffer): for every declared size FIXED..=FIXED+3*ELEM+9 that the kind accepts, two images with equal declared bytes and different padding must compare equal, and two images that differ in the last declared byte must compare unequal");
     {
         let second = Arena::new(2);
@@ -635,6 +636,84 @@ fn run(ctx: &mut Ctx) {
                 }
             }};
         }
+        // the kinds that also implement Ord and Hash: both must agree with == (same verdict on the same two images)
+        macro_rules! ord_kind {
+            ($kname:expr, $hdr:ty, $t:ty, $typ:expr, $fixed:expr, $elem:expr, $sixteen:expr) => {{
+                for size in $fixed..=$fixed + 3 * $elem + 9usize {
+                    if (size - $fixed) % $elem != 0 {
+                        continue;
+                    }
+                    let mut a = vec![0u8; round8(size)];
+                    for i in 8..a.len() {
+                        a[i] = marker(i, 4);
+                    }
+                    if $sixteen {
+                        wr16(&mut a, 0, $typ as u16);
+                        wr16(&mut a, 2, 1);
+                    } else {
+                        wr32(&mut a, 0, $typ as u32);
+                    }
+                    wr32(&mut a, 4, size as u32);
+                    if $kname == "EfiMmap" {
+                        wr32(&mut a, 8, 48);
+                        wr32(&mut a, 12, 1);
+                    }
+                    for variant in 0..2 {
+                        let mut b = a.clone();
+                        if variant == 0 {
+                            if round8(size) == size {
+                                continue;
+                            }
+                            for i in size..b.len() {
+                                b[i] = !a[i] | 1;
+                            }
+                        } else {
+                            if size == $fixed {
+                                continue;
+                            }
+                            b[size - 1] ^= 0x40;
+                        }
+                        let describe = || J::obj().set("part", "ordering_and_hash").set("kind", $kname).set("declared_size", size).set("second_image", ["same declared bytes, different padding", "last declared byte differs"][variant]).set("a", J::hex(&a)).set("b", J::hex(&b));
+                        ctx.leaf(describe, |ctx| {
+                            ctx.state_direct();
+                            ctx.nontrivial();
+                            arena.fill(arena::FILL_A);
+                            second.fill(arena::FILL_B);
+                            let pa = arena.place_right(&a);
+                            let pb = second.place_right(&b);
+                            let sa: &[u8] = unsafe { std::slice::from_raw_parts(pa, a.len()) };
+                            let sb: &[u8] = unsafe { std::slice::from_raw_parts(pb, b.len()) };
+                            let r = ctx.call("cast + cmp + hash", || {
+                                use std::hash::{Hash, Hasher};
+                                let ta = DynSizedStructure::<$hdr>::ref_from_slice(sa).unwrap().cast::<$t>();
+                                let tb = DynSizedStructure::<$hdr>::ref_from_slice(sb).unwrap().cast::<$t>();
+                                let h = |t: &$t| { let mut s = std::collections::hash_map::DefaultHasher::new(); t.hash(&mut s); s.finish() };
+                                (ta == tb, ta.cmp(tb), tb.cmp(ta), ta.partial_cmp(tb), h(ta) == h(tb))
+                            });
+                            match r {
+                                Out::Panic => ctx.class("ordering:refused"),
+                                Out::Val((eq, ab, ba, pab, heq)) => {
+                                    ctx.ob("ord.eq", eq as u64);
+                                    let want_eq = variant == 0;
+                                    let consistent = eq == want_eq && (ab == std::cmp::Ordering::Equal) == want_eq && ab == ba.reverse() && pab == Some(ab) && (!want_eq || heq);
+                                    if !consistent {
+                                        ctx.violation(&format!("c05/ordering-hash/{}", $kname), || format!("{} tags of size {}, {}: == {}, cmp {:?} / reversed {:?}, partial_cmp {:?}, hashes equal {}: equality, ordering and hashing must agree and look at the declared bytes only", $kname, size, ["equal declared bytes and different padding", "different last declared byte"][variant], eq, ab, ba, pab, heq));
+                                    } else {
+                                        ctx.class("ordering:ok");
+                                    }
+                                }
+                            }
+                        });
+                    }
+                }
+            }};
+        }
+        ord_kind!("Cmdline", TagHeader, CommandLineTag, bi::CMDLINE, 8usize, 1usize, false);
+        ord_kind!("BootLoaderName", TagHeader, BootLoaderNameTag, bi::BOOTLOADER, 8usize, 1usize, false);
+        ord_kind!("Module", TagHeader, ModuleTag, bi::MODULE, 16usize, 1usize, false);
+        ord_kind!("Smbios", TagHeader, SmbiosTag, bi::SMBIOS, 16usize, 1usize, false);
+        ord_kind!("EfiMmap", TagHeader, EFIMemoryMapTag, bi::EFI_MMAP, 16usize, 1usize, false);
+        ord_kind!("InformationRequest", HeaderTagHeader, InformationRequestHeaderTag, 1u32, 8usize, 4usize, true);
         eq_kind!("Cmdline", CommandLineTag);
         eq_kind!("BootLoaderName", BootLoaderNameTag);
         eq_kind!("Module", ModuleTag);
